@@ -52,6 +52,9 @@ type Config struct {
 	Genesis   *cctptypes.GenesisState // cctp genesis handed to InitGenesis (nil: default)
 	Funded    map[string]*big.Int     // bech32 address -> uusdc balance
 	Allowance *big.Int                // cctp module's minter allowance at the fiat-token-factory
+	// FundedOther: balances in denoms other than the minting denom (look-alike spellings such as "UUSDC"):
+	// denom -> bech32 address -> amount.
+	FundedOther map[string]map[string]*big.Int
 	Double    bool                    // use the ledger double instead of the real bank+FTF
 	Fold      bool                    // double only: denom comparison is case-insensitive
 	FTFPaused bool
@@ -265,6 +268,43 @@ func (c *Chain) initGenesis(ctx sdk.Context) {
 		if total.Sign() > 0 {
 			bg.Supply = sdk.NewCoins(sdk.NewCoin(cfg.MintDenom, sdkmath.NewIntFromBigInt(total)))
 		}
+		dens := make([]string, 0, len(cfg.FundedOther))
+		for d := range cfg.FundedOther {
+			dens = append(dens, d)
+		}
+		sort.Strings(dens)
+		for _, d := range dens {
+			if d == cfg.MintDenom {
+				continue
+			}
+			as := make([]string, 0, len(cfg.FundedOther[d]))
+			for a := range cfg.FundedOther[d] {
+				as = append(as, a)
+			}
+			sort.Strings(as)
+			dt := new(big.Int)
+			for _, a := range as {
+				v := cfg.FundedOther[d][a]
+				if v.Sign() <= 0 {
+					continue
+				}
+				coin := sdk.NewCoin(d, sdkmath.NewIntFromBigInt(v))
+				found := false
+				for i := range bg.Balances {
+					if bg.Balances[i].Address == a {
+						bg.Balances[i].Coins = bg.Balances[i].Coins.Add(coin)
+						found = true
+					}
+				}
+				if !found {
+					bg.Balances = append(bg.Balances, banktypes.Balance{Address: a, Coins: sdk.NewCoins(coin)})
+				}
+				dt.Add(dt, v)
+			}
+			if dt.Sign() > 0 {
+				bg.Supply = bg.Supply.Add(sdk.NewCoin(d, sdkmath.NewIntFromBigInt(dt)))
+			}
+		}
 	}
 	// the module accounts exist from genesis (as on the production chain), so that funds sent to their
 	// addresses do not end up in plain base accounts
@@ -296,6 +336,7 @@ func (c *Chain) initGenesis(ctx sdk.Context) {
 	if cfg.Double {
 		c.Ledger.MintingDenom = cfg.MintDenom
 		c.Ledger.Init(ctx, cfg.Funded, cfg.Allowance, cfg.FTFPaused)
+		c.Ledger.InitOther(ctx, cfg.FundedOther)
 	}
 
 	gs := cfg.Genesis
